@@ -11,8 +11,8 @@ import vlib
 from vlib import log, Inconclusive
 
 HARNESS_OVERLAY = {"compose/zz_verif_build_test.go": os.path.join(vlib.HARNESS, "compose", "zz_verif_build_test.go")}
-AS_CODED = {"FixD5": False, "FixD15": False, "FixD7": False}
-REPAIRED = {"FixD5": True, "FixD15": True, "FixD7": True}
+AS_CODED = {"FixD5": False, "FixD15": False, "FixD7": False, "FixD30": False}
+REPAIRED = {"FixD5": True, "FixD15": True, "FixD7": True, "FixD30": True}
 
 # reasons of spec/BuildRule.tla by owner; everything else is a machinery problem (inconsistent trace), never a violation
 OWN = {
@@ -62,14 +62,23 @@ def gen(fam, adds, post, *, simulate=None, depth=None, seed=None, timeout=900, w
     run = _tlc(name, cfg_text(consts(fam, adds, post, fix or REPAIRED, br, aftererr), ["Emit"]),
                workers=workers, timeout=timeout, simulate=simulate, depth=depth, seed=seed)
     vlib.tlc_must_pass(run, "case generation %s" % fam)
-    seen, out = set(), []
+    seen, out, by_ops = set(), [], {}
     for t in run.tagged("CASE"):
         if len(t) != 1 or t[0] in seen:
             continue
         seen.add(t[0])
         c = json.loads(t[0])
+        # the model may end one construction in several ways (the order in which a Workflow's node map is walked): one case, all predictions
+        key = json.dumps([c["fe"], c["gi"], c["go"], c["state"], c["ops"]], sort_keys=True)
+        if key in by_ops:
+            if c["pred"] not in by_ops[key]["pred_alt"]:
+                by_ops[key]["pred_alt"].append(c["pred"])
+            continue
+        c["pred_alt"] = [c["pred"]]
+        by_ops[key] = c
         c["fam"] = "%s/%d/%d%s" % (fam, adds, post, "/sim" if simulate else "")
         out.append(c)
+    run.nondet = sum(1 for c in out if len(c["pred_alt"]) > 1)
     run.stdout, run.printed = run.stdout[-4000:], []      # the printed cases are large; keep only the parsed ones
     return out, run
 
@@ -78,7 +87,7 @@ def decorate(cases, *, seed, att=5, stream_frac=0.5):
     rnd = random.Random(seed)
     for i, c in enumerate(cases):
         c["id"] = "%s#%d" % (c["fam"], i)
-        c["att"] = att
+        c["att"] = c.get("att_fam") or att
         c["stream"] = rnd.random() < stream_frac
     return cases
 
@@ -88,7 +97,7 @@ def replay(cases, *, repo=None, timeout=1200):
     cin, out = os.path.join(d, "cases.ndjson"), os.path.join(d, "obs.ndjson")
     with open(cin, "w") as fh:
         for c in cases:
-            fh.write(json.dumps({k: v for k, v in c.items() if k not in ("pred", "fam")}, separators=(",", ":")) + "\n")
+            fh.write(json.dumps({k: v for k, v in c.items() if k not in ("pred", "pred_alt", "att_fam", "fam")}, separators=(",", ":")) + "\n")
     code, output, wall = vlib.go_test("compose", HARNESS_OVERLAY, "^TestVerifBuild$", timeout=timeout, repo=repo, args=["-test.v"],
                                       env={"VERIF_CASES": cin, "VERIF_OUT": out})
     vlib.go_must_run(code, output, "builder replay")
@@ -179,6 +188,12 @@ def classify(case, reason, detail, obs):
     if reason == "runnable-changed-after-compile":
         fm = any(ops[j]["op"] == "edge" and ops[j]["x"] == "fm" for j in ok)
         return "%s-after-compile-changes-first-runnable%s" % (detail or "call", "(field-mapping)" if fm else "")
+    if reason == "outcome-not-deterministic" and case["fe"] == "wf":
+        # D30: a pass-through node of a workflow next to an edge with field mappings (typed from whichever edge the node map yields first)
+        declared = [o for o in ops if o["op"] in ("pass", "edge")]
+        pk = {o["k"] for o in declared if o["op"] == "pass"}
+        if any(o["op"] == "edge" and o["x"] in ("fm", "fm2", "dfm", "dfm2", "fmr") and (o["a"] in pk or o["b"] in pk) for o in declared):
+            return "workflow-passthrough-typed-across-mapped-edge"
     if reason == "illformed-accepted":
         return "illformed-accepted(%s)" % detail
     return reason
